@@ -872,7 +872,26 @@ Definition is_fault_free (o : op) : bool :=
 (* walk the trace: prev = live dump before the step; clean = storage and served state are expected to
    agree (no storage fault / foreign write since the last point where they did); retryable = the previous
    step was a storage failure of an update issued from a clean state *)
-Fixpoint monitor_walk (known : list rule) (prev : option dump) (clean retryable : bool) (ops : list op) (obs_l : list obs) : list string :=
+(* records that a restart must serve, whoever wrote them (a member of a previous version, an operator): a rule
+   with acceptable content stored under its own key, while every other record is under its own key too
+   (`repaired`: true on the empty storage and after a successful Initialize, false once a rule is stored under
+   a foreign key - such a record may claim the key first).  Updates in between reset the list (they may
+   replace or delete the record). *)
+Definition content_acceptable (r : rule) : bool := match adjust_rule r None with Some _ => true | None => false end.
+Definition without_key (k : id * id) (l : list rule) : list rule := filter (fun x => negb (pair_eqb (rkey x) k)) l.
+Definition pending_step (o : op) (ok_res repaired : bool) (pending : list rule) : bool * list rule :=
+  match o with
+  | OCorruptRule k (SVRule r) =>
+      if pair_eqb k (rkey r)
+      then (repaired, if repaired && content_acceptable r then r :: without_key k pending else without_key k pending)
+      else (false, [])
+  | OCorruptRule k SVGarbage => (repaired, without_key k pending)
+  | OCorruptDrop k => (repaired, without_key k pending)
+  | ORestart _ | OInitAgain _ => (ok_res, [])
+  | _ => (repaired, [])
+  end.
+
+Fixpoint monitor_walk (known : list rule) (prev : option dump) (clean retryable repaired : bool) (pending : list rule) (ops : list op) (obs_l : list obs) : list string :=
   match ops, obs_l with
   | o :: ops', b :: obs' =>
       let ok_res := match o_res b with ROk => true | _ => false end in
@@ -929,7 +948,15 @@ Fixpoint monitor_walk (known : list rule) (prev : option dump) (clean retryable 
         | ORestart _, RErr _, _, _ => if clean' then ["C13:initialize-fails-on-own-storage"] else []
         | _, _, _, _ => []
         end in
-      here ++ monitor_walk known (o_live b) clean' retryable' ops' obs'
+      let served_pending :=
+        match o, o_res b, o_live b with
+        | ORestart _, ROk, Some l | OInitAgain _, ROk, Some l =>
+            if forallb (fun r => existsb (r3_eqb (rule3 r)) (d_all l)) pending then []
+            else ["C13:restart-drops-a-valid-stored-rule"]
+        | _, _, _ => []
+        end in
+      let '(repaired', pending') := pending_step o ok_res repaired pending in
+      here ++ served_pending ++ monitor_walk known (o_live b) clean' retryable' repaired' pending' ops' obs'
   | _, _ => []
   end.
 
@@ -940,7 +967,7 @@ Fixpoint dedup (l : list string) : list string :=
   end.
 
 Definition monitor (c : list op * list pobs) : list string :=
-  dedup (monitor_walk (flat_map rules_of_op (fst c)) None true false (fst c) (expand None (snd c) (model_obs (fst c)))).
+  dedup (monitor_walk (flat_map rules_of_op (fst c)) None true false true [] (fst c) (expand None (snd c) (model_obs (fst c)))).
 
 Fixpoint monitor_fails_from (n : nat) (cs : list (list op * list pobs)) : list (nat * string) :=
   match cs with
